@@ -9,7 +9,7 @@ FILES = ['Properties_C07.v']
 
 def run3(ctx, cmds, specs):
     impl = vlib.run_harness(ctx, cmds)
-    out = vlib.run_oracle(ctx, cmds + [s for s in specs if s])
+    out = vlib.run_oracle(ctx, cmds + [s for s in specs if s], parallel=True)
     model = out[:len(cmds)]
     refs, k = [], len(cmds)
     for s in specs:
@@ -37,7 +37,7 @@ def check(ctx, tier, seed, t0):
         dist['dt:%02x' % m['dt']] = dist.get('dt:%02x' % m['dt'], 0) + 1
     impl, model, refs = run3(ctx, [p['pc'] for p in plan], [p['ps'] for p in plan])
     def judge(p, cmd, spec, i, mo, r, what):
-        if not (i == mo or (mo == 'OOB' and i.startswith('CRASH'))):
+        if not (i == mo or (mo == 'OOB' and i.startswith('CRASH')) or i.startswith('SKIPPED')):
             tie.append({'cmd': cmd, 'impl': i, 'model': mo})
         if r is not None and r != 'UNMOD' and i != r:
             failures.append({'key': {'function': what, 'datatype': '%02x' % p['m']['dt'], 'mode': p['m']['mode']}, 'cmd': cmd[:700], 'spec_cmd': (spec or '')[:700],
